@@ -419,7 +419,8 @@ def gen_scenario(rng, sid, p_malformed=0.15, max_depth=5, p_multi=0.3, allow_asy
             provs = sorted(rng.sample(PROVIDERS, rng.choice([2, 2, 3])), key=PROVIDERS.index)
         else:
             provs = [rng.choice(PROVIDERS)]
-        names[nm] = [[p, rng.choice(["attr", "prop", "method"])] for p in provs]
+        # (class and static methods are looked up on the instance like any other callable attribute)
+        names[nm] = [[p, rng.choice(["attr", "prop", "method", "method", "classmethod", "staticmethod"])] for p in provs]
     for en in entries:
         if en["kind"] != "expr":
             where = "machine" if en["kind"] != "callable" and rng.random() < 0.6 else "model"
@@ -431,7 +432,7 @@ def gen_scenario(rng, sid, p_malformed=0.15, max_depth=5, p_multi=0.3, allow_asy
         exprs = [i for i, en in enumerate(entries) if en["kind"] == "expr"]
         m = rng.random()
         if m < 0.4 and any(names_of(ast.parse(entries[i]["canon"], mode="eval")) for i in exprs):
-            cand = [n for n in names if names[n][0][1] in ("attr", "prop", "method") and names[n][0][0] != "free"
+            cand = [n for n in names if names[n][0][1] in ("attr", "prop", "method", "classmethod", "staticmethod") and names[n][0][0] != "free"
                     and any(n in names_of(ast.parse(entries[i]["canon"], mode="eval")) for i in exprs)]
             if cand:
                 victim = rng.choice(cand)
@@ -504,8 +505,9 @@ def gen_scenario(rng, sid, p_malformed=0.15, max_depth=5, p_multi=0.3, allow_asy
         rounds.append(rho)
     # declared as `go = b.from_.any(cond=.., unless=..)`: the guards live on per-state copies of the transition
     via_any = rng.random() < 0.2
+    same_free_names = rng.random() < 0.3
     return dict(id=sid, names=names, entries=entries, rounds=rounds, force_async=force_async,
-                malformed=malformed, via_any=via_any)
+                malformed=malformed, via_any=via_any, same_free_names=same_free_names)
 
 
 # ----------------------------------------------------------------------------- small-scope enumeration
